@@ -142,6 +142,23 @@ func (s *vSource) Seek(off int64, whence int) (int64, error) {
 // vReadOnly hides Seek (a non-seekable source).
 type vReadOnly struct{ s *vSource }
 
+// vSourceLen / vReadOnlyLen: the same sources, additionally exposing what bytes.Reader, bytes.Buffer and
+// strings.Reader expose (Len: bytes left, Size: total) - a reader may look for these optional methods, and what it
+// returns must not depend on whether the source has them. Both are symbolic when the cut position is.
+type vSourceLen struct{ *vSource }
+
+func (r vSourceLen) Len() int    { return int(r.limit - r.pos) }
+func (r vSourceLen) Size() int64 { return r.limit }
+
+type vReadOnlyLen struct{ s *vSource }
+
+func (r vReadOnlyLen) Read(p []byte) (int, error) { return r.s.Read(p) }
+func (r vReadOnlyLen) Len() int                   { return int(r.s.limit - r.s.pos) }
+func (r vReadOnlyLen) Size() int64                { return r.s.limit }
+
+// vSourceSized: harness switch - hand the sized variants to the code under test
+var vSourceSized bool
+
 func (r vReadOnly) Read(p []byte) (int, error) { return r.s.Read(p) }
 
 // ---------- a caller-supplied codec: XOR 0x5a (stands for "custom compressor + matching decompressor") ----------
@@ -258,6 +275,9 @@ func vMakeWorkload(tpl, ln, pn, idv int) *vWorkload {
 		wl.recs = []vRec{vSchemaRec("s1", s1, ln), vChannelRec("c1", c1, s1, ln, 0), vMessageRec("m1", c1, pn),
 			vAttachmentRec("a1", ln, pn), vMessageRec("m2", c1, pn), vMetadataRec("d1", ln, 1),
 			vChannelRec("c2", c2, s1, ln, 1), vMessageRec("m3", c2, pn)}
+	case 8: // small messages, then one whose record is larger than the chunk size, then a small one (pn = the large payload)
+		wl.recs = []vRec{vSchemaRec("s1", s1, ln), vChannelRec("c1", c1, s1, ln, 0), vMessageRec("m1", c1, 1), vMessageRec("m2", c1, 1),
+			vMessageRec("m3", c1, pn), vMessageRec("m4", c1, 1)}
 	case 7: // two attachments and two metadata records, order among themselves matters
 		wl.recs = []vRec{vAttachmentRec("a1", ln, pn), vMetadataRec("d1", ln, 1), vAttachmentRec("a2", ln, 0), vMetadataRec("d2", ln, 0)}
 	}
